@@ -88,6 +88,8 @@ class Parser:
             logging.error('Error: file {} not found.'.format(file_name))
         except OSError:
             logging.error('Error accessing file {}'.format(file_name))
+        except UnicodeDecodeError:
+            logging.error('Error: file {} is not a text file.'.format(file_name))
 
     def get_errors(self) -> str:
         return self._error_output
